@@ -72,7 +72,24 @@ for it in range(N):
     t2 = bt.Backtest(fis, px, integer_positions=False, commissions=FEES[fk], additional_data={"coupons": coup, "cost_long": cl, "cost_short": cs}, initial_capital=float(rs.choice([0.0, 1e5])), progress_bar=False); t2.run(); evals += 1
     distinct.add(("fi", fk, lazy))
     audit(t2.strategy, "fixed-income tree (coupons, holding costs, hedge)", dict(fee=fk, lazy_children=lazy))
+    # ---- C: a hand-driven tree that visits only some of the dates of its data: between two visited dates the value moves by the mark-to-market
+    # at THOSE dates' prices, minus the fees of the later one
+    s3 = Strategy("h", [], children=["a", "b"]); s3.setup(data[["a", "b"]]); s3.use_integer_positions(False)
+    if FEES[fk] is not None: s3.set_commissions(FEES[fk])
+    s3.adjust(1e5); s3.update(idx[0])
+    visited = [0] + sorted(set(int(x) for x in rs.randint(1, n, size=int(rs.randint(2, 6)))))
+    for v in visited[1:]:
+        s3.update(idx[v])
+        if rs.rand() < 0.7: s3.allocate(float(rs.choice([2e4, -5e3, 1e4])), str(rs.choice(["a", "b"])))
+        s3.update(idx[v])
+    evals += 1
+    for v0, v1 in zip(visited[:-1], visited[1:]):
+        d0, d1 = idx[v0], idx[v1]
+        mtm = sum(float(c.positions.loc[d0]) * (float(data.loc[d1, c.name]) - float(data.loc[d0, c.name])) for c in s3.children.values())
+        want = mtm - float(s3.fees.loc[d1]); got = float(s3.values.loc[d1]) - float(s3.values.loc[d0])
+        if abs(got - want) > 1e-6 * max(1.0, abs(float(s3.values.loc[d0]))):
+            bad("value-change-is-mtm-plus-flows-plus-carry-minus-costs", tree="hand-driven tree visiting dates %r" % visited, date=str(d1.date()), moved=got, explained=want, mark_to_market=mtm, fees=float(s3.fees.loc[d1])); break
     if it < 2: samples.append(dict(dates=n, fee=fk, final_value=float(t.strategy.value), fi_final_value=float(t2.strategy.value)))
 print("JSON:" + json.dumps(dict(evaluations=evals, distinct=len(distinct), failures=fails[:5], samples=samples,
-      rule="(A) a market-value tree with a sub-strategy, weekly random re-weighting at both levels, 4 fee shapes, optional spreads, random capital flows and a custom algo that ends the day with an un-refreshed trade; (B) a fixed-income strategy holding two coupon payers (eager or lazy), a fixed-income security and a hedge whose price is exactly 0 on a date, random trades; for every pair of consecutive dates the change in root value is recomputed from the recorded positions, prices, flows, coupons, holding costs, fees and spreads",
+      rule="(A) a market-value tree with a sub-strategy, weekly random re-weighting at both levels, 4 fee shapes, optional spreads, random capital flows and a custom algo that ends the day with an un-refreshed trade; (B) a fixed-income strategy holding two coupon payers (eager or lazy), a fixed-income security and a hedge whose price is exactly 0 on a date, random trades; (C) a hand-driven tree that visits only some of the dates; for every pair of consecutive (visited) dates the change in root value is recomputed from the recorded positions, prices, flows, coupons, holding costs, fees and spreads",
       bound="%d pairs of backtests of 12-29 dates" % N)))
